@@ -35,7 +35,7 @@ var solverSpecs = []solverSpec{
 	{"z3-4.8.12", func(t int) []string { return []string{"/usr/bin/z3", "-in", fmt.Sprintf("-T:%d", t)} }},
 }
 
-var solverSem = make(chan struct{}, 24)
+var solverSem = make(chan struct{}, 12)
 
 // buildQuery renders an SMT-LIB script asserting all of asserts and asking
 // for the values of the listed variables.
